@@ -112,6 +112,11 @@ def shards(tier):
     # width ladder: frames with many columns
     for ncol in ([33, 130] if tier == "quick" else [33, 130, 600]):
         out.append({"part": "wide", "ncol": ncol})
+    # the same frames under other string-hash seeds (fresh interpreters): the order of a set of names must not matter
+    for seed in (["1", "2"] if tier == "quick" else ["1", "2", "3", "4"]):
+        out.append({"part": "wide", "ncol": 33, "__env__": {"PYTHONHASHSEED": seed}})
+        for i in range(len(sf)):
+            out.append({"part": "rbind3", "first": i, "tier": tier, "__env__": {"PYTHONHASHSEED": seed}})
     layouts = [0, 1, 4] if tier == "quick" else [0, 1, 2, 3, 4]
     rows = [0, 1, 3] if tier == "quick" else [0, 1, 2, 3]
     for lay in layouts:
